@@ -637,6 +637,46 @@ func runCase(c *kit.Ctx, i int, name string) {
 		}
 	}
 
+	// a sixth sync: the claim is NOT edited (its previous intent was applied by this same long-lived
+	// claim controller a moment ago), but another writer has changed a claim-derived spec field and a
+	// claim-derived label on the XR. Every sync propagates the claim's fields: the drift is repaired.
+	{
+		xrS := &unstructured.Unstructured{Object: findXR()}
+		cmNow := w.GetObj(ckey)
+		wantSpec := map[string]any{}
+		for f := range t.Edit {
+			if v, ok := specOf(cmNow)[f]; ok {
+				wantSpec[f] = runtime.DeepCopyJSONValue(v)
+				_ = unstructured.SetNestedField(xrS.Object, "drifted-on-the-xr", "spec", f)
+			}
+		}
+		wantLabel, hasLabel := strMap(cmNow, "labels")["example.org/edited-later"]
+		if hasLabel {
+			ls := xrS.GetLabels()
+			if ls == nil {
+				ls = map[string]string{}
+			}
+			ls["example.org/edited-later"] = "drifted"
+			xrS.SetLabels(ls)
+		}
+		if err := w.Client("xrctl").Update(context.Background(), xrS); err == nil && (len(wantSpec) > 0 || hasLabel) {
+			for n := 0; n < 3; n++ {
+				_, _, _ = ce.Reconcile("ns1", "c1")
+			}
+			xrNow := findXR()
+			got := specOf(xrNow)
+			for f, want := range wantSpec {
+				if !reflect.DeepEqual(got[f], want) {
+					k.fail("claim-field-not-propagated:unchanged-claim-after-drift-on-xr", fmt.Sprintf("claim spec.%s is %v (unchanged since the last sync) but the XR still has %v after three syncs (another writer had changed the field on the XR)", f, kit.JSON(want), kit.JSON(got[f])))
+				}
+			}
+			if hasLabel && strMap(xrNow, "labels")["example.org/edited-later"] != wantLabel {
+				k.fail("claim-label-not-propagated:unchanged-claim-after-drift-on-xr", fmt.Sprintf("claim label example.org/edited-later=%q (unchanged since the last sync) but the XR has %q after three syncs (another writer had changed the label on the XR)", wantLabel, strMap(xrNow, "labels")["example.org/edited-later"]))
+			}
+			c.Count("syncs_of_unchanged_claim_after_drift_on_xr", 1)
+		}
+	}
+
 	nestedUser, machinery := 0, 0
 	for f, v := range specOf(t.Claim) {
 		if allMachinery[f] {
